@@ -122,15 +122,15 @@ func (c *Ctx) Worker() *W {
 	return &W{c: c, outcomes: map[string]int64{}, nt: map[uint64]struct{}{}}
 }
 
-func (w *W) Eval()              { w.evals++ }
-func (w *W) EvalN(n int64)      { w.evals += n }
-func (w *W) State()             { w.states++ }
-func (w *W) StateN(n int64)     { w.states += n }
-func (w *W) Trans()             { w.trans++ }
-func (w *W) TransN(n int64)     { w.trans += n }
-func (w *W) Trace()             { w.traces++ }
-func (w *W) Outcome(k string)   { w.outcomes[k]++ }
-func (w *W) Ctx() *Ctx          { return w.c }
+func (w *W) Eval()                      { w.evals++ }
+func (w *W) EvalN(n int64)              { w.evals += n }
+func (w *W) State()                     { w.states++ }
+func (w *W) StateN(n int64)             { w.states += n }
+func (w *W) Trans()                     { w.trans++ }
+func (w *W) TransN(n int64)             { w.trans += n }
+func (w *W) Trace()                     { w.traces++ }
+func (w *W) Outcome(k string)           { w.outcomes[k]++ }
+func (w *W) Ctx() *Ctx                  { return w.c }
 func (w *W) OutcomeN(k string, n int64) { w.outcomes[k] += n }
 
 // Nontrivial records a case that is non-trivial by the check's rule, identified by a
@@ -194,6 +194,9 @@ func (c *Ctx) Violate(class, kind string, cas any, detail string) {
 	raw, err := json.Marshal(cas)
 	if err != nil {
 		raw, _ = json.Marshal(fmt.Sprintf("%#v", cas))
+	}
+	if len(detail) > 800 {
+		detail = detail[:800] + fmt.Sprintf("... (%d more bytes)", len(detail)-800)
 	}
 	c.mu.Lock()
 	defer c.mu.Unlock()
